@@ -116,8 +116,21 @@ def _archive(ctx, pydrex, case, scratch):
     path = os.path.join(scratch, "archive.npz")
     model = {}
     k = case["n_minerals"]
-    pool = ["a", "b2", "ol", "en", "x_y", "p-1", "0", "17", "Zz", "m_3_t", "postfix", "fractions", "meta"]
+    # distinct postfixes, deliberately including ones that are underscore-delimited tails / heads / substrings of
+    # each other (the suite's own naming style is M0_X0_L5): a lookup by anything but the exact key confuses them
+    pool = ["a", "b2", "ol", "en", "x_y", "p-1", "0", "17", "Zz", "m_3_t", "postfix", "fractions", "meta",
+            "L5", "M0_X0_L5", "M10_X0_L5", "X0_L5", "1", "olivine_1", "enstatite_1", "11", "1_1", "y", "x", "a_b2", "b2_a", "M0", "M0_X0"]
     postfixes = [str(p) for p in rng.choice(pool, size=k, replace=False)]
+    if k >= 2 and rng.random() < 0.6:
+        fam = [["L5", "M0_X0_L5", "X0_L5", "M10_X0_L5"], ["1", "olivine_1", "1_1", "11", "enstatite_1"], ["x", "x_y", "y"], ["a", "a_b2", "b2", "b2_a"],
+               ["M0", "M0_X0", "M0_X0_L5"]][int(rng.integers(5))]
+        take = min(k, len(fam))
+        postfixes[:take] = [str(p) for p in rng.permutation(fam)[:take]]
+        postfixes = list(dict.fromkeys(postfixes))
+        while len(postfixes) < k:
+            c = str(rng.choice(pool))
+            if c not in postfixes:
+                postfixes.append(c)
     minerals = [make_mineral(pydrex, rng) for _ in range(k + 1)]
     ops = []
     if case["whole_first"]:
